@@ -3,7 +3,7 @@
 (* Design model of kernel dispatching in the command processor             *)
 (* (amd/timing/cp): cpMiddleware.processLaunchKernelReq, the dispatchers   *)
 (* (internal/dispatching/dispatcher.go), the placement algorithms          *)
-(* (roundrobin.go, greedy.go) and the shared CU resource pool              *)
+(* (roundrobin.go, greedy.go, partition.go) and the shared CU resource pool *)
 (* (internal/resource, see CUResource.tla).                                *)
 (*                                                                         *)
 (* One action per message handled / per sub-step of DispatcherImpl.Tick:   *)
@@ -30,7 +30,7 @@ CONSTANTS
   CUs,         \* Seq over CUs of [slots: Seq over SIMDs, sUnits, vUnits: Seq over SIMDs, lUnits]
   GS, GV, GL,  \* allocation granularity: SGPRs, VGPRs (per lane), LDS bytes per unit
   NDisp,       \* number of dispatchers
-  Alg,         \* "rr" | "greedy"
+  Alg,         \* "rr" | "greedy" | "partition"
   Kernels,     \* set of [nwg, n, s, v, l]: work-groups, wavefronts per WG, SGPRs per wavefront,
                \*   VGPRs per work-item, LDS bytes per WG  (what the driver may launch)
   MaxLaunch,   \* bound on the number of launches
@@ -43,6 +43,8 @@ VARIABLES
   resv,      \* Seq over CUs: <<k, w>> -> unit locations (CUResourceImpl.reservedWGs)
   disp,      \* Seq over dispatchers of [k, algN, nextCU, curr, nD, nC, inflight]
              \*   k = kernel being dispatched (0 idle), algN = alg.numDispatchedWGs, nextCU = rr cursor (0-based),
+             \*   part = partition algorithm's state [np = nextPartition, pd = dispatched per partition,
+             \*   cur = fetched, unplaced work-group per partition (-1 none), nxt = next index of its grid builder],
              \*   curr = <<>> or <<[w, c, locs]>> (reserved, MapWGReq not sent yet), nD/nC = numDispatchedWGs/
              \*   numCompletedWGs, inflight = map id -> [w, c]
   panicked,  \* the CP hit log.Panic / panic
@@ -64,7 +66,8 @@ Demand(K) == [n |-> K.n, su |-> Units(K.s, GS), vu |-> Units(K.v, GV), lu |-> Un
 DemandOf(k) == [n |-> kern[k].n, su |-> Units(kern[k].s, GS), vu |-> Units(kern[k].v, GV), lu |-> Units(kern[k].l, GL)]
 KDesc(K) == [wgs |-> 0..(K.nwg - 1), nwf |-> [w \in 0..(K.nwg - 1) |-> K.n], n |-> K.n, s |-> K.s, v |-> K.v, l |-> K.l,
              pid |-> PID, st |-> "queued", fit |-> {c \in 1..N : TryReserve(FreshCU(c), Demand(K)).ok}]
-IdleDisp == [k |-> 0, algN |-> 0, nextCU |-> 0, curr |-> <<>>, nD |-> 0, nC |-> 0, inflight |-> <<>>]
+NoPart == [np |-> 0, pd |-> [i \in 1..N |-> 0], cur |-> [i \in 1..N |-> -1], nxt |-> [i \in 1..N |-> 0]]
+IdleDisp == [k |-> 0, algN |-> 0, nextCU |-> 0, part |-> NoPart, curr |-> <<>>, nD |-> 0, nC |-> 0, inflight |-> <<>>]
 
 Init ==
   /\ L_Init(LedgerCfg)
@@ -73,16 +76,24 @@ Init ==
   /\ disp = [d \in 1..NDisp |-> IdleDisp]
   /\ panicked = FALSE /\ nk = 0 /\ nm = 0 /\ nmsg = 0
 
+NWG(k) == Cardinality(kern[k].wgs)
+\* partitionAlgorithm: numWGPerPartition
+NPer(k) == ((NWG(k) - 1) \div N) + 1
+
 \* ---------------------------------------------------------------- component
-\* cpMiddleware.processLaunchKernelReq: the first dispatcher that is not dispatching takes the head request
+\* cpMiddleware.processLaunchKernelReq: the first dispatcher that is not dispatching takes the head request;
+\* StartDispatching + alg.StartNewKernel (partition: one grid builder per CU, skipped to its share of the
+\* grid; the partition cursor survives from kernel to kernel, as the round-robin cursor does)
 Start(d) ==
   /\ ~panicked /\ drvIn # <<>>
   /\ disp[d].k = 0 /\ \A e \in 1..(d - 1) : disp[e].k # 0
   /\ L_Start(Head(drvIn))
-  /\ disp' = [disp EXCEPT ![d].k = Head(drvIn), ![d].algN = 0, ![d].nD = 0, ![d].nC = 0]
+  /\ disp' = [disp EXCEPT ![d].k = Head(drvIn), ![d].algN = 0, ![d].nD = 0, ![d].nC = 0,
+                          ![d].part = [np |-> @.np, pd |-> [i \in 1..N |-> 0], cur |-> [i \in 1..N |-> -1],
+                                       nxt |-> [i \in 1..N |-> (i - 1) * NPer(Head(drvIn))]]]
   /\ UNCHANGED <<cus, resv, panicked, nk, nm, nmsg>>
 
-\* order in which alg.Next() tries the CUs
+\* order in which roundRobinAlgorithm.Next() / greedyAlgorithm.Next() try the CUs
 CUOrder(d) == [i \in 1..N |-> IF Alg = "rr" THEN ((disp[d].nextCU + i - 1) % N) + 1 ELSE i]
 
 RECURSIVE TryCUs(_, _, _, _)
@@ -93,30 +104,65 @@ TryCUs(cs, order, i, wg) ==
        IF r.ok THEN [ok |-> TRUE, cus |-> [cs EXCEPT ![c] = r.cu], c |-> c, locs |-> r.locs]
        ELSE TryCUs([cs EXCEPT ![c] = r.cu], order, i + 1, wg)
 
-CanReserve(d) == ~panicked /\ disp[d].k # 0 /\ disp[d].curr = <<>> /\ disp[d].algN < Cardinality(kern[disp[d].k].wgs)
+\* partitionAlgorithm.nextWG(i) on the private state p: the work-group partition i offers, and whose it is.
+\* A partition that has dispatched its share offers a work-group some other partition fetched but could
+\* not place; otherwise its own fetched one, or the next of its grid builder (none beyond the grid's end).
+PartNextWG(p, i, nper, nwg) ==
+  IF p.pd[i] >= nper
+  THEN LET J == {j \in 1..N : p.cur[j] >= 0} IN
+       IF J = {} THEN [p |-> p, w |-> -1, from |-> i]
+       ELSE LET j == CHOOSE x \in J : \A y \in J : x <= y IN [p |-> p, w |-> p.cur[j], from |-> j]
+  ELSE IF p.cur[i] >= 0 THEN [p |-> p, w |-> p.cur[i], from |-> i]
+  ELSE LET w == IF p.nxt[i] < nwg THEN p.nxt[i] ELSE -1 IN
+       [p |-> [p EXCEPT !.cur[i] = w, !.nxt[i] = IF w >= 0 THEN @ + 1 ELSE @], w |-> w, from |-> i]
+
+\* partitionAlgorithm.Next(): partitions in rotation from nextPartition, work-group of partition i only to CU i
+RECURSIVE PartTry(_, _, _, _, _, _)
+PartTry(cs, p, idx, k, nper, nwg) ==
+  IF idx >= N THEN [ok |-> FALSE, cus |-> cs, p |-> p, c |-> 0, locs |-> <<>>, w |-> -1]
+  ELSE LET i == ((idx + p.np) % N) + 1
+           g == PartNextWG(p, i, nper, nwg) IN
+       IF g.w < 0 THEN PartTry(cs, g.p, idx + 1, k, nper, nwg)
+       ELSE LET r == TryReserve(cs[i], DemandOf(k)) IN
+            IF r.ok THEN [ok |-> TRUE, cus |-> [cs EXCEPT ![i] = r.cu], c |-> i, locs |-> r.locs, w |-> g.w,
+                          p |-> [g.p EXCEPT !.cur[g.from] = -1, !.pd[g.from] = @ + 1, !.np = i]]
+            ELSE PartTry([cs EXCEPT ![i] = r.cu], g.p, idx + 1, k, nper, nwg)
+
+\* alg.Next() of dispatcher d
+AlgNext(d) ==
+  LET k == disp[d].k IN
+  IF Alg = "partition" THEN PartTry(cus, disp[d].part, 0, k, NPer(k), NWG(k))
+  ELSE LET r == TryCUs(cus, CUOrder(d), 1, DemandOf(k)) IN
+       [ok |-> r.ok, cus |-> r.cus, p |-> disp[d].part, c |-> r.c, locs |-> r.locs,
+        w |-> disp[d].algN]                      \* the grid builder hands out work-groups in index order
+
+CanReserve(d) == ~panicked /\ disp[d].k # 0 /\ disp[d].curr = <<>> /\ disp[d].algN < NWG(disp[d].k)
 
 Reserve(d) ==
   /\ CanReserve(d)
   /\ LET k == disp[d].k
-         w == disp[d].algN           \* the grid builder hands out work-groups in index order
-         r == TryCUs(cus, CUOrder(d), 1, DemandOf(k)) IN
+         r == AlgNext(d) IN
      /\ r.ok
      /\ cus' = r.cus
-     /\ IF <<k, w>> \in DOMAIN resv[r.c]        \* neverReserveTwice
+     /\ IF <<k, r.w>> \in DOMAIN resv[r.c]        \* neverReserveTwice
         THEN panicked' = TRUE /\ UNCHANGED <<resv, disp>>
-        ELSE /\ resv' = [resv EXCEPT ![r.c] = @ @@ (<<k, w>> :> r.locs)]
-             /\ disp' = [disp EXCEPT ![d].curr = <<[w |-> w, c |-> r.c, locs |-> r.locs]>>,
+        ELSE /\ resv' = [resv EXCEPT ![r.c] = @ @@ (<<k, r.w>> :> r.locs)]
+             /\ disp' = [disp EXCEPT ![d].curr = <<[w |-> r.w, c |-> r.c, locs |-> r.locs]>>,
                                      ![d].algN = @ + 1,
+                                     ![d].part = r.p,
                                      ![d].nextCU = IF Alg = "rr" THEN r.c % N ELSE @]
              /\ UNCHANGED panicked
   /\ UNCHANGED <<lvars, nk, nm, nmsg>>
 
+\* alg.Next() placed nothing; what it touched on the way stays touched (SIMD cursors of the CUs tried,
+\* work-groups fetched by partitions)
 ReserveFail(d) ==
   /\ CanReserve(d)
-  /\ LET r == TryCUs(cus, CUOrder(d), 1, DemandOf(disp[d].k)) IN
-     /\ ~r.ok /\ r.cus # cus
+  /\ LET r == AlgNext(d) IN
+     /\ ~r.ok /\ (r.cus # cus \/ r.p # disp[d].part)
      /\ cus' = r.cus
-  /\ UNCHANGED <<lvars, resv, disp, panicked, nk, nm, nmsg>>
+     /\ disp' = [disp EXCEPT ![d].part = r.p]
+  /\ UNCHANGED <<lvars, resv, panicked, nk, nm, nmsg>>
 
 \* byte/register offsets as they travel in MapWGReq.Wavefronts
 RawLocs(locs) == [i \in 1..Len(locs) |-> [simd |-> locs[i].simd, s |-> locs[i].soff * GS,
@@ -164,7 +210,7 @@ Process(d) ==
 CompleteKernel(d) ==
   /\ ~panicked /\ disp[d].k # 0
   /\ disp[d].curr = <<>>
-  /\ disp[d].algN >= Cardinality(kern[disp[d].k].wgs)        \* !alg.HasNext()
+  /\ disp[d].algN >= NWG(disp[d].k)        \* !alg.HasNext()
   /\ disp[d].nC >= disp[d].nD
   /\ Len(drvOut) < PortCap
   /\ L_Rsp(disp[d].k)
@@ -251,7 +297,8 @@ NoPanic == ~panicked
 CompIdle == ~ENABLED CompNext
 \* ... then no work-group of a running kernel is left waiting although an idle CU could take it,
 \* (a work-group already reserved whose MapWGReq waits for room in the ToCUs port is not waiting for a CU)
-NeverStarved == (~panicked /\ CompIdle /\ Len(toCU) < PortCap) => ~Starved
+\* (the partition placement pins work-groups to CUs: only "nothing resident anywhere" is excluded there)
+NeverStarved == (~panicked /\ CompIdle /\ Len(toCU) < PortCap) => (IF Alg = "partition" THEN ~Stuck ELSE ~Starved)
 \* ... and with nothing in flight anywhere every launch has been answered
 QuietMeansAnswered == (~panicked /\ CompIdle /\ PortsQuiet) => AllAnswered
 
